@@ -29,8 +29,10 @@ RULE = ("case = (base backend, initial base contents, list of calls on the trans
 NAMES = ["refs/heads/a", "refs/heads/b", "refs/tags/t", "refs/remotes/o/m"]
 OBJS = [[3, b"blob zero".hex()], [3, b"b1".hex()], [2, b"".hex()],
         [1, b"tree 4b825dc642cb6eb9a060e54bf8d69288fbee4904\nauthor a <a@b> 1 +0000\ncommitter a <a@b> 1 +0000\n\nm\n".hex()],
-        [4, b"object 0000000000000000000000000000000000000001\ntype commit\ntag x\ntagger a <a@b> 1 +0000\n\nt\n".hex()]]
-NN, NO = len(NAMES), len(OBJS)
+        [4, b"object 0000000000000000000000000000000000000001\ntype commit\ntag x\ntagger a <a@b> 1 +0000\n\nt\n".hex()],
+        [6, b"not storable".hex()]]
+NN, NO = len(NAMES), len(OBJS) - 1      # the last object has a type SetEncodedObject refuses
+BAD = len(OBJS) - 1
 BASES = [(4, "memory"), (3, "memfs"), (1, "osfs"), (1, "memfs:x")]
 WRITES = {"setref", "cas", "casnil", "delref", "setobj", "setidx", "setcfg", "setshallow", "applog", "dellog"}
 
@@ -63,6 +65,8 @@ def obj_op(rng):
         return ["getobj", t, o]
     if k == "iterobjs":
         return ["iterobjs", rng.randrange(0, 5)]
+    if k == "setobj" and rng.random() < 0.1:
+        return [k, BAD]
     return [k, rng.randrange(NO)]
 
 
